@@ -1310,9 +1310,10 @@ theorem findChild_spec (a : Array PNode) (ssid : Nat) : ∀ (fuel : Nat) (start 
         exact ⟨Reach.next h1, h2⟩
 
 /-- the transition matrix of a word-internal phone is a function of its senone-sequence id (pnodes are shared between
-words by ssid alone) -/
-def SsidTmat (li : LexIn) (tm : Nat → Nat) : Prop :=
-  ∀ wid p, li.tmat ((li.word wid).pron.getD p 0) = tm (li.internal (li.word wid).dictWid p)
+words by ssid alone) — over the word-internal positions of the words on the arcs of `g`, which is all the construction reads -/
+def SsidTmat (li : LexIn) (g : Fsg) (tm : Nat → Nat) : Prop :=
+  ∀ lid, lid < g.links.size → 0 ≤ (g.link lid).wid → ∀ p, 1 ≤ p → p + 1 < (li.word (g.link lid).wid.toNat).pron.length →
+    li.tmat ((li.word (g.link lid).wid.toNat).pron.getD p 0) = tm (li.internal (li.word (g.link lid).wid.toNat).dictWid p)
 
 /-- every non-leaf pnode of state `s` is a root of one of the sets `gl` / of `extra`, or a word-internal pnode -/
 def IntKind (li : LexIn) (tm : Nat → Nat) (s : Nat) (gl : List GEntry) (extra : List Nat) (a : Array PNode) : Prop :=
@@ -1437,7 +1438,7 @@ structure PhCtx (g : Fsg) (li : LexIn) (tm : Nat → Nat) (s lid : Nat) (w : Wor
   hlcl : ∀ x ∈ lcl, Valid a1 s x
   hnd : lcl.Nodup
   hcur : ∃ e ∈ gl, e.list = lcl
-  htm : SsidTmat li tm
+  htm : ∀ p, 1 ≤ p → p + 1 < w.pron.length → li.tmat (w.pron.getD p 0) = tm (li.internal w.dictWid p)
   n2 : 2 ≤ w.pron.length
 
 /-- what holds after the positions `1..m` -/
@@ -1580,7 +1581,7 @@ theorem step_found (ctx : PhCtx g li tm s lid w lcl gl a1) (hb : PhInv g s a1 st
     · cases h1
     · exact h1
   have htmat : (ndOf st.nodes q).tmatid = li.tmat (w.pron.getD (1 + m) 0) := by
-    rw [hkind.2.2, hssid, ctx.hw]; exact (ctx.htm _ _).symm
+    rw [hkind.2.2, hssid]; exact (ctx.htm (1 + m) (by omega) (by omega)).symm
   refine ⟨hp.gx, hp.child, hp.kind, fun h => by omega, fun _ _ => hnotroot, ?_⟩
   refine ⟨fun j => if j = m + 1 then q else qf j, ?_, ?_, fun h => by omega⟩
   · rw [hmin']
@@ -1618,14 +1619,14 @@ theorem step_found (ctx : PhCtx g li tm s lid w lcl gl a1) (hb : PhInv g s a1 st
 
 /-- the new word-internal pnode: fields, and that no root of a shared set is reached from it -/
 theorem new_internal (ctx : PhCtx g li tm s lid w lcl gl a1) (hb : PhInv g s a1 st) (hp : PhP g li tm s lid w logp rclist lcl gl a1 m st)
-    (p : Nat) :
+    (p : Nat) (hp1 : 1 ≤ p) (hp2 : p + 1 < w.pron.length) :
     Quiet st.nodes (st.nodes.push (internalNode li s (w.pron.getD p 0) p w.dictWid (ndOf st.nodes st.pred).succ)) ∧
     IntKind li tm s gl [] (st.nodes.push (internalNode li s (w.pron.getD p 0) p w.dictWid (ndOf st.nodes st.pred).succ)) ∧
     (∀ e ∈ gl, ∀ r ∈ e.list, ¬ Reach (st.nodes.push (internalNode li s (w.pron.getD p 0) p w.dictWid (ndOf st.nodes st.pred).succ))
       (some st.nodes.size) r) := by
   refine ⟨quiet_push hb.inv rfl, hp.kind.push hb.inv _ (fun _ hx => hx) (fun _ _ => Or.inr ⟨rfl, rfl, ?_⟩), ?_⟩
   · show li.tmat (w.pron.getD p 0) = tm (li.internal w.dictWid p)
-    rw [ctx.hw]; exact ctx.htm _ _
+    exact ctx.htm p hp1 hp2
   · intro e he r hr hreach
     have hrlt := hp.gx.lt e he r hr
     cases hreach with
@@ -1653,7 +1654,7 @@ theorem step_allocF (ctx : PhCtx g li tm s lid w lcl gl a1) (hb : PhInv g s a1 s
       { nodes := lcl.foldl (fun a r => setSucc a r (some st.nodes.size))
           (st.nodes.push (internalNode li s (w.pron.getD 1 0) 1 w.dictWid (ndOf st.nodes st.pred).succ)),
         pred := st.nodes.size } := by
-  obtain ⟨hq, hk, hnr⟩ := new_internal ctx hb hp 1
+  obtain ⟨hq, hk, hnr⟩ := new_internal ctx hb hp 1 (Nat.le_refl _) (by omega)
   have hpredl := hp.predFirst rfl
   have hsz : (st.nodes.push (internalNode li s (w.pron.getD 1 0) 1 w.dictWid (ndOf st.nodes st.pred).succ)).size = st.nodes.size + 1 :=
     Array.size_push ..
@@ -1703,7 +1704,7 @@ theorem step_allocL (ctx : PhCtx g li tm s lid w lcl gl a1) (hb : PhInv g s a1 s
       { nodes := setSucc (st.nodes.push (internalNode li s (w.pron.getD (1 + m) 0) (1 + m) w.dictWid (ndOf st.nodes st.pred).succ))
           st.pred (some st.nodes.size),
         pred := st.nodes.size } := by
-  obtain ⟨hq, hk, hnr⟩ := new_internal ctx hb hp (1 + m)
+  obtain ⟨hq, hk, hnr⟩ := new_internal ctx hb hp (1 + m) (by omega) (by omega)
   have hpnr := hp.predLater hm1 hm
   have hsz : (st.nodes.push (internalNode li s (w.pron.getD (1 + m) 0) (1 + m) w.dictWid (ndOf st.nodes st.pred).succ)).size = st.nodes.size + 1 :=
     Array.size_push ..
@@ -2018,7 +2019,7 @@ theorem headD_mem {l : List Nat} (h : l ≠ []) : l.headD 0 ∈ l := by
 /-- **`psubtree_add_trans` keeps the facts about the root sets, loses no child, and represents a multi-phone arc** -/
 theorem addTrans_x {g : Fsg} {li : LexIn} {tm : Nat → Nat} {s : Nat} {lclist rclist : List Nat} {a0 : Array PNode} (hlc : lclist ≠ [])
     (w0 : Bld) (lid : Nat) (hl : lid < g.links.size ∧ (g.link lid).src = s ∧ 0 ≤ (g.link lid).wid)
-    (h : WInv g s a0 w0) (hr : WR w0) (hx : WX li tm s lclist w0) (htm : SsidTmat li tm)
+    (h : WInv g s a0 w0) (hr : WR w0) (hx : WX li tm s lclist w0) (htm : SsidTmat li g tm)
     (hn : 1 ≤ (li.word (g.link lid).wid.toNat).pron.length) :
     WX li tm s lclist (addTrans li g s lclist rclist w0 lid) ∧
     ChildMono w0.nodes (addTrans li g s lclist rclist w0 lid).nodes ∧
@@ -2057,7 +2058,7 @@ theorem addTrans_x {g : Fsg} {li : LexIn} {tm : Nat → Nat} {s : Nat} {lclist r
         · exact h2
       simp only [hemp, Bool.not_false, if_true]
       have ctx : PhCtx g li tm s lid (li.word (g.link lid).wid.toNat) e.list w0.glists w0.nodes :=
-        ⟨hl, rfl, h.glists e he, hr.nodup e he, ⟨e, he, rfl⟩, htm, hn2⟩
+        ⟨hl, rfl, h.glists e he, hr.nodup e he, ⟨e, he, rfl⟩, fun p h1 h2 => htm lid hl.1 hl.2.2 p h1 h2, hn2⟩
       obtain ⟨hG, hC, hgx, hkd, hM⟩ := multi_core (rclist := rclist) (lclist := lclist) (root := w0.root) ctx h.inv hr.ranked hx.gx hx.kind
         (headD_mem hne) (hx.sets e he).1 (by rw [← hcirc.1, ← hcirc.2]; exact (hx.sets e he).2) hv
       refine ⟨⟨hgx, hkd, hx.nonempty, ?_⟩, hC, fun _ => hM⟩
@@ -2121,7 +2122,7 @@ theorem addTrans_x {g : Fsg} {li : LexIn} {tm : Nat → Nat} {s : Nat} {lclist r
         | cons y ys => exact List.mem_cons_self ..
       have ctx : PhCtx g li tm s lid (li.word (g.link lid).wid.toNat) R.lcl
           (GEntry.mk ((li.word (g.link lid).wid.toNat).pron.headD 0) ((li.word (g.link lid).wid.toNat).pron.getD 1 0) R.lcl :: w0.glists) R.nodes :=
-        ⟨hl, rfl, hI.lcl, hR.nodup, ⟨_, List.mem_cons_self .., rfl⟩, htm, hn2⟩
+        ⟨hl, rfl, hI.lcl, hR.nodup, ⟨_, List.mem_cons_self .., rfl⟩, fun p h1 h2 => htm lid hl.1 hl.2.2 p h1 h2, hn2⟩
       obtain ⟨hG2, hC2, hgx2, hkd2, hM2⟩ := multi_core (rclist := rclist) (lclist := lclist) (root := R.root) ctx hI.inv hR.ranked hgx'
         (hK.intoSets _ rfl) hpredm hT.lclReach hT.cover (fun y hy => (hI.root y hy).1)
       refine ⟨⟨hgx2, hkd2, ?_, ?_⟩, fun p hp x hx' => hC2 p (Nat.lt_of_lt_of_le hp hQ.size) x (hQ.child p hp x hx'), fun _ => hM2⟩
@@ -2279,7 +2280,7 @@ theorem addTrans_own {g : Fsg} {li : LexIn} {base s : Nat} {lclist rclist : List
 /-- **one state**: every multi-phone arc leaving `s` is represented, no child of an earlier pnode is lost, all new pnodes
 belong to `s` -/
 theorem buildState_multi {g : Fsg} {li : LexIn} {tm : Nat → Nat} {lcs rcs : Array Nat} {nodes : Array PNode} {s : Nat}
-    (hlc : ctxList li (lcs.getD s 0) ≠ []) (inv : GInv g nodes) (hr : Ranked nodes) (htm : SsidTmat li tm)
+    (hlc : ctxList li (lcs.getD s 0) ≠ []) (inv : GInv g nodes) (hr : Ranked nodes) (htm : SsidTmat li g tm)
     (hpron : ∀ lid ∈ stateArcs g s, 1 ≤ (li.word (g.link lid).wid.toNat).pron.length)
     (hown : ∀ x, x < nodes.size → (ndOf nodes x).owner ≠ s) :
     (Grow nodes (buildState li g lcs rcs nodes s).1 ∧ ChildMono nodes (buildState li g lcs rcs nodes s).1 ∧
@@ -2317,7 +2318,7 @@ theorem buildState_multi {g : Fsg} {li : LexIn} {tm : Nat → Nat} {lcs rcs : Ar
   exact ⟨h.2.1, h.2.2⟩
 
 /-- all states: every multi-phone arc is represented in the final array, under the final `root[s]` -/
-theorem buildFold_multi (li : LexIn) (g : Fsg) (tm : Nat → Nat) (hsil : li.sil < li.nCi) (htm : SsidTmat li tm)
+theorem buildFold_multi (li : LexIn) (g : Fsg) (tm : Nat → Nat) (hsil : li.sil < li.nCi) (htm : SsidTmat li g tm)
     (hpron : ∀ s, s < li.nState → ∀ lid ∈ stateArcs g s, 1 ≤ (li.word (g.link lid).wid.toNat).pron.length) :
     ∀ n, n ≤ li.nState →
       (∀ x, x < ((List.range n).foldl (buildStep li g) (#[], #[])).1.size →
@@ -2368,7 +2369,7 @@ root-to-leaf path `r → qf 1 → … → qf (n−2) → l` of pnodes — `r` a 
 `(p₀, lc, p₁)`, `qf j` word-internal pnodes with the ssid, transition matrix and entry penalty of position `j`, `l` a leaf
 carrying the arc with `rc` in its context set and the ssid of `(p_{n−1}, p_{n−2}, rc)` — every pnode a child (in the sense of
 `fsg_search_pnode_trans`) of the one before. -/
-theorem build_multi (li : LexIn) (g : Fsg) (tm : Nat → Nat) (hsil : li.sil < li.nCi) (htm : SsidTmat li tm)
+theorem build_multi (li : LexIn) (g : Fsg) (tm : Nat → Nat) (hsil : li.sil < li.nCi) (htm : SsidTmat li g tm)
     (hpron : ∀ s, s < li.nState → ∀ lid ∈ stateArcs g s, 1 ≤ (li.word (g.link lid).wid.toNat).pron.length)
     {s : Nat} (hs : s < li.nState) {lid : Nat} (hlid : lid ∈ stateArcs g s)
     (h2 : 2 ≤ (li.word (g.link lid).wid.toNat).pron.length) {lc : Nat} (hlc : lc ∈ ctxList li ((ctxFlags li g).1.getD s 0)) {rc : Nat}
